@@ -23,6 +23,7 @@ import (
 	"time"
 
 	"github.com/pingcap/kvproto/pkg/pdpb"
+	"github.com/tikv/pd/pkg/tsoutil"
 	"github.com/tikv/pd/pkg/typeutil"
 	"github.com/tikv/pd/server/config"
 	"github.com/tikv/pd/server/tso"
@@ -44,6 +45,9 @@ type XJump struct {
 	DC      int `json:"dc"`
 	AheadMs int `json:"ahead_ms"`
 	GapMs   int `json:"gap_ms"`
+	// RawBelow k > 0: the raw logical part of the allocator becomes rawLimit - k, rawLimit = 1 << (18 - suffix bits):
+	// the last k raw values whose differentiated logical part still fits the 18-bit field
+	RawBelow int `json:"raw_below,omitempty"`
 }
 
 // XLose: dc-X loses its allocator leader. Kind dead: handed over to a member id that does not exist (the
@@ -59,13 +63,16 @@ type XStep struct {
 	Par  []XReq `json:"par,omitempty"`
 	Jump *XJump `json:"jump,omitempty"`
 	Lose *XLose `json:"lose,omitempty"`
+	// Lead "off": PD leadership is moved (by resignations) to a member that runs WITHOUT enable-local-tso (PDs entry -1:
+	// a rolling enable/disable of the switch); "on": back to a member that runs with it
+	Lead string `json:"lead,omitempty"`
 	// Restore: pending hand-overs are unblocked (next-leader keys deleted) and every dc-location has a leader again
 	Restore bool `json:"restore,omitempty"`
 }
 
 type XCase struct {
 	Skip     bool    `json:"skip,omitempty"` // this shard does not run the expensive cluster (see genCross)
-	PDs      []int   `json:"pds"`            // dc-location index of each PD member
+	PDs      []int   `json:"pds"`            // dc-location index of each PD member; -1 = a member started without enable-local-tso
 	Steps    []XStep `json:"steps"`
 	ResignAt int     `json:"resign_at"` // the PD leader resigns before this step (-1 = never)
 }
@@ -85,9 +92,10 @@ func genCross(t *rapid.T) XCase {
 		return c
 	}
 	if !thorough {
-		c.PDs = rapid.SampledFrom([][]int{{0, 1}, {1, 0}, {0, 1, 0}, {0, 1, 1}}).Draw(t, "pds")
+		c.PDs = rapid.SampledFrom([][]int{{0, 1, -1}, {1, 0, -1}, {0, -1, 1}, {-1, 0, 1}}).Draw(t, "pds")
 	} else {
-		c.PDs = rapid.SampledFrom([][]int{{0}, {0, 0}, {0, 1}, {0, 1}, {0, 1, 0}, {0, 1, 0}, {0, 1, 1}, {0, 1, 1}, {0, 1, 2}, {0, 1, 2}, {0, 1, 2}}).Draw(t, "pds")
+		c.PDs = rapid.SampledFrom([][]int{{0}, {0, 0}, {0, 1}, {0, 1}, {0, 1, 0}, {0, 1, 0}, {0, 1, 1}, {0, 1, 1}, {0, 1, 2}, {0, 1, 2}, {0, 1, 2},
+			{0, 1, -1}, {0, -1, 1}, {0, 0, -1}}).Draw(t, "pds")
 	}
 	ndc := 0
 	for _, d := range c.PDs {
@@ -156,6 +164,55 @@ func genCross(t *rapid.T) XCase {
 		}
 		pat = append(pat, XStep{Jump: &XJump{GapMs: 0}}, XStep{Par: []XReq{{DC: -1, N: 1}}})
 		at := rapid.IntRange(0, len(c.Steps)).Draw(t, "jat")
+		c.Steps = append(c.Steps[:at], append(pat, c.Steps[at:]...)...)
+	}
+	// mixed switch: PD leadership moves to the member without enable-local-tso while dc-X is ahead; global requests must
+	// be refused (or synchronized) there; then leadership moves back
+	hasOff := false
+	for _, d := range c.PDs {
+		hasOff = hasOff || d < 0
+	}
+	if hasOff {
+		nm := 1
+		if thorough {
+			nm = rapid.IntRange(1, 3).Draw(t, "nmixed")
+		}
+		for j := 0; j < nm; j++ {
+			dcx := rapid.IntRange(0, ndc-1).Draw(t, "xdc")
+			pat := []XStep{{Jump: &XJump{DC: dcx, AheadMs: rapid.SampledFrom([]int{1500, 2500}).Draw(t, "xahead")}},
+				{Par: []XReq{{DC: dcx, N: 1}}}, {Lead: "off"}, {Par: []XReq{{DC: dcx, N: 1}}}}
+			for k, ng := 0, rapid.IntRange(1, 3).Draw(t, "xglobals"); k < ng; k++ {
+				pat = append(pat, XStep{Par: []XReq{{DC: -1, N: uint32(rapid.SampledFrom([]int{1, 1, 5}).Draw(t, "xgn"))}}},
+					XStep{Par: []XReq{{DC: rapid.IntRange(0, ndc-1).Draw(t, "xldc"), N: 1}}})
+			}
+			pat = append(pat, XStep{Lead: "on"}, XStep{Par: []XReq{{DC: -1, N: 1}}}, XStep{Par: []XReq{{DC: dcx, N: 1}}})
+			at := rapid.IntRange(0, len(c.Steps)).Draw(t, "xat")
+			c.Steps = append(c.Steps[:at], append(pat, c.Steps[at:]...)...)
+		}
+	}
+	// dc-X sits d ahead with only k raw logical values left in its millisecond; global requests of count around k must
+	// move on to the next millisecond instead of returning a logical part that does not fit 18 bits
+	nedge := rapid.IntRange(2, 3).Draw(t, "nedge")
+	if thorough {
+		nedge = rapid.IntRange(3, 6).Draw(t, "nedge_t")
+	}
+	for j := 0; j < nedge; j++ {
+		k := rapid.SampledFrom([]int{1, 2, 5, 10, 30}).Draw(t, "ek")
+		n := k
+		switch rapid.IntRange(0, 3).Draw(t, "erel") {
+		case 0:
+			n = k + 1
+		case 1:
+			if k > 1 {
+				n = k - 1
+			}
+		case 2:
+			n = rapid.SampledFrom([]int{1, 5, 30}).Draw(t, "en")
+		}
+		dcx := rapid.IntRange(0, ndc-1).Draw(t, "edc")
+		pat := []XStep{{Jump: &XJump{DC: dcx, AheadMs: rapid.SampledFrom([]int{50, 500, 1500}).Draw(t, "eahead"), RawBelow: k}},
+			{Par: []XReq{{DC: -1, N: uint32(n)}}}, {Par: []XReq{{DC: -1, N: 1}}}, {Par: []XReq{{DC: dcx, N: 1}}}}
+		at := rapid.IntRange(0, len(c.Steps)).Draw(t, "eat")
 		c.Steps = append(c.Steps[:at], append(pat, c.Steps[at:]...)...)
 	}
 	// dc-X (ahead by d, local timestamps issued) loses its allocator leader; 1-3 global requests while it has none
@@ -277,11 +334,16 @@ func getCluster(pds []int) *xcluster {
 	ok := within(90*time.Second, func() {
 		cl, err = tests.NewTestCluster(ctx, len(pds), func(conf *config.Config, name string) {
 			i, _ := strconv.Atoi(strings.TrimPrefix(name, "pd"))
-			conf.EnableLocalTSO = true
+			conf.EnableLocalTSO = pds[i-1] >= 0
 			if conf.Labels == nil {
 				conf.Labels = map[string]string{}
 			}
-			conf.Labels[config.ZoneLabel] = xdc(pds[i-1])
+			if pds[i-1] >= 0 {
+				conf.Labels[config.ZoneLabel] = xdc(pds[i-1])
+			} else {
+				// the zone label stays in the configuration file, only the switch is off
+				conf.Labels[config.ZoneLabel] = xdc(0)
+			}
 			conf.Log.Level = "error"
 		})
 		if err == nil {
@@ -311,7 +373,7 @@ func dcsOf(pds []int) []string {
 	seen := map[int]bool{}
 	var out []string
 	for _, d := range pds {
-		if !seen[d] {
+		if d >= 0 && !seen[d] {
 			seen[d] = true
 			out = append(out, xdc(d))
 		}
@@ -368,11 +430,34 @@ func (x *xcluster) target(dc string) string {
 	if dc == tso.GlobalDCLocation {
 		return ls.GetAddr()
 	}
-	name := ls.GetAllocatorLeader(dc).GetName()
+	// (the PD leader may run without Local TSO and then knows no allocator leaders: ask the members)
+	name := x.holder(dc)
 	if name == "" || x.cluster.GetServer(name) == nil {
 		return ""
 	}
 	return x.cluster.GetServer(name).GetAddr()
+}
+
+func (x *xcluster) isOff(name string) bool {
+	s := x.cluster.GetServer(name)
+	return s != nil && !s.GetConfig().EnableLocalTSO
+}
+
+// lead moves PD leadership by resignations until a member with (off=false) / without (off=true) enable-local-tso leads.
+func (x *xcluster) lead(off bool, pds []int) bool {
+	for try := 0; try < 10; try++ {
+		l := x.cluster.GetLeader()
+		if l != "" && x.isOff(l) == off {
+			return true
+		}
+		if l != "" && !within(30*time.Second, func() { x.cluster.ResignLeader() }) {
+			return false
+		}
+		if !x.waitLeaders(pds, 60*time.Second) {
+			return false
+		}
+	}
+	return false
 }
 
 func (x *xcluster) holder(dc string) string {
@@ -409,7 +494,8 @@ func (x *xcluster) handOver(dc, target string, wait bool) bool {
 func (x *xcluster) lose(dcs []string, l *XLose) bool {
 	dc := dcs[l.DC%len(dcs)]
 	leader := x.cluster.GetLeader()
-	if leader == "" {
+	if leader == "" || x.isOff(leader) {
+		// a PD leader without Local TSO cannot take over local allocators
 		return false
 	}
 	switch l.Kind {
@@ -500,7 +586,7 @@ func (x *xcluster) jump(dcs []string, j *XJump) int {
 		x.setGap(0)
 		dc := dcs[j.DC%len(dcs)]
 		if leader := x.cluster.GetLeader(); leader != "" {
-			name := x.cluster.GetServer(leader).GetAllocatorLeader(dc).GetName()
+			name := x.holder(dc)
 			if srv := x.cluster.GetServer(name); name != "" && srv != nil {
 				if al, err := srv.GetTSOAllocatorManager().GetAllocator(dc); err == nil {
 					if la, ok := al.(*tso.LocalTSOAllocator); ok {
@@ -510,7 +596,11 @@ func (x *xcluster) jump(dcs []string, j *XJump) int {
 							if now > base {
 								base = now
 							}
-							if la.SetTSO(compose(base+int64(j.AheadMs), 0)) == nil {
+							logical := int64(0)
+							if j.RawBelow > 0 {
+								logical = maxLogical>>uint(srv.GetTSOAllocatorManager().GetSuffixBits()) - int64(j.RawBelow)
+							}
+							if la.SetTSO(compose(base+int64(j.AheadMs), logical)) == nil {
 								moved = 1
 							}
 						}
@@ -774,6 +864,14 @@ func runCross(c XCase) (vkit.Info, error) {
 	resigned := false
 	jumps := 0
 	lostPending := false
+	hasOff := false
+	for _, d := range c.PDs {
+		hasOff = hasOff || d < 0
+	}
+	if hasOff && !x.lead(false, c.PDs) {
+		info.Inconclusive = true
+		return info, nil
+	}
 	defer x.setGap(0)
 	// the cluster is in an unknown state: do not reuse it
 	unusable := func() {
@@ -811,6 +909,19 @@ func runCross(c XCase) (vkit.Info, error) {
 		}
 		if st.Jump != nil {
 			jumps += x.jump(dcs, st.Jump)
+			continue
+		}
+		if st.Lead != "" {
+			if !hasOff {
+				continue
+			}
+			if lostPending && !x.restore(dcs, c.PDs) || !x.lead(st.Lead == "off", c.PDs) {
+				unusable()
+				info.Inconclusive = true
+				return info, nil
+			}
+			lostPending = false
+			info.Class("pd-leader-with-local-tso-" + st.Lead)
 			continue
 		}
 		if st.Lose != nil {
@@ -869,7 +980,7 @@ func runCross(c XCase) (vkit.Info, error) {
 	}
 	info.ClassIf(failed > 0, "some-requests-failed")
 	info.ClassIf(jumps > 0, "local-allocator-jumped-ahead")
-	if len(okEv)*2 < len(hist) || len(okEv) == 0 {
+	if len(okEv)*4 < len(hist) || len(okEv) == 0 {
 		fmt.Printf("C05 cross: %d of %d requests failed, e.g. %v\n", failed, len(hist), firstErr(hist))
 		info.Inconclusive = true
 		return info, nil
@@ -887,8 +998,21 @@ func runCross(c XCase) (vkit.Info, error) {
 		if int(e.Bits) < need {
 			return info, fmt.Errorf("suffix_bits=%d in a response while etcd holds suffix %d (needs %d bits): %s", e.Bits, maxSuffix, need, dump(e))
 		}
+		// clause of C01 that every response must satisfy as well: the logical part fits its 18-bit field, so that the
+		// timestamps a response owns compose (tsoutil.ComposeTS) to strictly increasing values that parse back
 		if e.Physical <= 0 || e.Logical < 0 || e.Logical >= maxLogical {
-			return info, fmt.Errorf("timestamp parts out of range: %s", dump(e))
+			return info, fmt.Errorf("[C01 clause: the logical part fits its 18-bit field] returned logical part %d is outside [0, 2^18): %s", e.Logical, dump(e))
+		}
+		var prev uint64
+		for i := int64(0); i < e.N; i++ {
+			lg := e.Logical - (e.N-1-i)<<e.Bits
+			v := tsoutil.ComposeTS(e.Physical, lg)
+			pt, pl := tsoutil.ParseTS(v)
+			if pt.UnixNano()/int64(time.Millisecond) != e.Physical || int64(pl) != lg || (i > 0 && v <= prev) {
+				return info, fmt.Errorf("[C01 clause: composed timestamps preserve the order] timestamp %d of %d of a response (physical %d, logical %d) composes to %d which parses back to (%d, %d) / is not above the previous one %d: %s",
+					i+1, e.N, e.Physical, lg, v, pt.UnixNano()/int64(time.Millisecond), pl, prev, dump(e))
+			}
+			prev = v
 		}
 		want := int64(0)
 		if e.DC != tso.GlobalDCLocation {
